@@ -199,6 +199,37 @@ def wildRoundtrip1 (e : BEnv) (Γ : Ctx) (cfg : ParserConfig) (isDatatype : Str 
   let evs ← genAnyType e Γ {} (depthTree t + 1) v var none
   eventsTree isDatatype evs
 
+/-! ### the same through the binder of a typed host
+
+What `ElementNode.bind_objects` / `bind_mixed_objects` / `bind_wild_text` do with the objects a
+wildcard var of the host receives, and `convert_value` on the way back.  The host contributes
+only its start and end tag (lookups of the host's `XmlMeta` are covered by the correspondence). -/
+
+/-- `bind_wild_var` for every value, then `convert_value(value, var)` inside `<host>…</host>`:
+a list wildcard collects the values, a single wildcard nests the second and later values under
+a synthetic `AnyElement(qname=None)` -/
+def fieldRoundtrip (e : BEnv) (Γ : Ctx) (cfg : ParserConfig) (isDatatype : Str → Bool)
+    (var : XmlVar) (host : QN) (ts : List Tree) : Except Err Tree := do
+  let vals ← ts.mapM (wildValue e Γ cfg var)
+  let params ← vals.foldlM (fun p v => bindWildVar p var (some var.qname) v) ([] : Params)
+  let evs ← match params.get var.name with
+    | some v => genValue e Γ {} (depthList ts + 3) v var none
+    | none => pure []
+  eventsTree isDatatype (hostEvents host [] [evs])
+
+/-- mixed content: `bind_mixed_objects` (every object through `prepare_generic_value`), the
+host's text inserted in front by `bind_wild_text`, `convert_mixed_content` on the way back -/
+def mixedRoundtrip (e : BEnv) (Γ : Ctx) (cfg : ParserConfig) (isDatatype : Str → Bool)
+    (var : XmlVar) (host : QN) (text : Option Str) (ts : List Tree) : Except Err Tree := do
+  let vals ← ts.mapM (wildValue e Γ cfg var)
+  let vals ← vals.mapM (prepareGeneric (some var.qname))
+  let params : Params := Params.set [] var.name (.list vals)
+  let params := (bindWildText e var [] [] params text none).1
+  let evs ← match params.get var.name with
+    | some v => genValue e Γ {} (depthList ts + 3) v var none
+    | none => pure []
+  eventsTree isDatatype (hostEvents host [] [evs])
+
 /-! ### the abstract writer with prefixes for `is_xsi_type` strings
 
 `EventHandler.add_attribute` turns a `str` value in Clark form into a `QName` when the attribute
